@@ -38,6 +38,8 @@ import (
 const (
 	c17FindTimeouts = "C17-mem-group-timeouts-dropped"
 	c17FindDelete   = "C17-delete-topic-consumer-offsets-diverge"
+	c17FindSepChars = "C17-group-id-separator-chars"
+	c17FindAlias    = "C17-group-id-aliases-offset-key"
 )
 
 type c17Member struct {
@@ -378,6 +380,23 @@ func c17Generate(t *rapid.T) c17Gen {
 	// group ids are free-form: besides unrelated ids, ids equal to a topic name of this sequence
 	// (a common naming habit) and ids that extend / are extended by one
 	groupPool := []string{topicPool[0], "g", topicPool[1], "grp-2", topicPool[0] + ".g", "g-" + topicPool[1], "offsets", "metadata"}
+	// group ids are never validated: ids containing characters the stores use as key separators
+	sep := rapid.SampledFrom([][]string{
+		{"team:app", "team/app"},
+		{"team app", "team#app", "team%2Fapp"},
+		{"a:" + topicPool[0], "a/offsets/" + topicPool[0], topicPool[0] + ":0"},
+		{"offsets/" + topicPool[1], "x/offsets/" + topicPool[0], "/offsets/" + topicPool[0], "x/offsets/" + topicPool[0] + "/y"},
+		{"team|app", "team,app", "team\\app", "team=app"},
+		{"/team", "team/", ":team", "team:", "team/offsets", "team/metadata"},
+	}).Draw(t, "separator-ids")
+	for _, id := range sep {
+		if strings.ContainsAny(id, ":/") {
+			g.classes["group-id-with-store-separator"] = true
+		} else {
+			g.classes["group-id-with-other-separator"] = true
+		}
+		groupPool = append([]string{id}, groupPool...)
+	}
 	memberPool := []string{"m1", "m2", "g-123", "consumer-1-abc"}
 	topic := rapid.SampledFrom(topicPool)
 	group := rapid.SampledFrom(groupPool)
@@ -435,7 +454,7 @@ func c17Generate(t *rapid.T) c17Gen {
 				emit(c17Op{Kind: "createTopic", Topic: tp, N: int32(rapid.IntRange(1, 3).Draw(t, "n")), RF: 1})
 				exists[tp] = true
 			}
-			gid := rapid.SampledFrom([]string{tp, tp, tp + ".g", "g-" + tp}).Draw(t, "gid")
+			gid := rapid.SampledFrom([]string{tp, "x/offsets/" + tp, tp + ".g", "g-" + tp, "offsets/" + tp, "g:" + tp, "g/" + tp}).Draw(t, "gid")
 			emit(c17Op{Kind: "putGroup", CG: &c17Group{ID: gid, State: "stable", ProtocolType: "consumer", Protocol: "range", Generation: int32(rapid.IntRange(1, 5).Draw(t, "gen")), Leader: "m1",
 				Members: []c17Member{{ID: "m1", Subs: []string{tp}, AssignOrder: []string{tp}, Assign: map[string][]int32{tp: {0}}}}}})
 			if rapid.Bool().Draw(t, "withcommit") {
@@ -677,7 +696,60 @@ func c17Generate(t *rapid.T) c17Gen {
 		g.script.Ops = append(g.script.Ops, op)
 		g.trace = append(g.trace, c17ShowOp(op))
 	}
+	c17SteerAlias(&g)
 	return g
+}
+
+// c17AliasesOffsetKey: the etcd key of the METADATA of group id, /kafscale/consumers/<id>/metadata,
+// reads as an entry of the offsets directory .../offsets/<topic>/ exactly when id is
+// "offsets/<topic>" or ends in "/offsets/<topic>"; deleting that topic then purges it.
+func c17AliasesOffsetKey(id, topic string) bool {
+	return id == "offsets/"+topic || strings.HasSuffix(id, "/offsets/"+topic)
+}
+
+// c17SteerAlias replays the generated script symbolically. A successful DeleteTopic(T) while a
+// group record whose id aliases T's offsets directory is stored is the listed finding
+// C17-group-id-aliases-offset-key: only while it is listed, that delete is replaced.
+func c17SteerAlias(g *c17Gen) {
+	exists := map[string]bool{}
+	for _, n := range g.script.Initial {
+		exists[n] = true
+	}
+	stored := map[string]bool{}
+	for i, op := range g.script.Ops {
+		switch op.Kind {
+		case "createTopic":
+			if !exists[op.Topic] && op.N > 0 && op.RF <= 1 && ValidTopicName(op.Topic) {
+				exists[op.Topic] = true
+			}
+		case "putGroup":
+			if op.CG != nil && op.CG.ID != "" {
+				stored[op.CG.ID] = true
+			}
+		case "deleteGroup":
+			delete(stored, op.Group)
+		case "deleteTopic":
+			if !exists[op.Topic] {
+				continue
+			}
+			hit := false
+			for id := range stored {
+				if c17AliasesOffsetKey(id, op.Topic) {
+					hit = true
+				}
+			}
+			if hit && vfkit.Known(c17FindAlias) {
+				g.excluded[c17FindAlias] = true
+				g.script.Ops[i] = c17Op{Kind: "listGroups"}
+				g.trace[i] = c17ShowOp(g.script.Ops[i])
+				continue
+			}
+			if hit {
+				g.classes["topic-delete-while-aliasing-group-record-stored"] = true
+			}
+			delete(exists, op.Topic)
+		}
+	}
 }
 
 func c17Etcd(t *testing.T) *clientv3.Client {
@@ -736,6 +808,27 @@ func TestVF_C17_Witness(t *testing.T) {
 			{Kind: "deleteTopic", Topic: "a"},
 			{Kind: "fetchOffset", Group: "g", Topic: "a", Part: 0}}},
 	}
+	wits[c17FindSepChars+"#colon"] = c17Script{Initial: []string{"orders"}, Ops: []c17Op{
+		{Kind: "commit", Group: "team:app", Topic: "orders", Part: 0, Off: 42, Meta: "m"},
+		{Kind: "listOffsets"},
+		{Kind: "deleteTopic", Topic: "orders"},
+		{Kind: "fetchOffset", Group: "team:app", Topic: "orders", Part: 0}}}
+	wits[c17FindSepChars+"#slash"] = c17Script{Initial: []string{"orders"}, Ops: []c17Op{
+		{Kind: "commit", Group: "team/app", Topic: "orders", Part: 0, Off: 42, Meta: "m"},
+		{Kind: "putGroup", CG: &c17Group{ID: "team/app", State: "stable", Generation: 1}},
+		{Kind: "listGroups"},
+		{Kind: "listOffsets"}}}
+	wits[c17FindAlias] = c17Script{Initial: []string{"a"}, Ops: []c17Op{
+		{Kind: "putGroup", CG: &c17Group{ID: "x/offsets/a", State: "stable", Generation: 1}},
+		{Kind: "deleteTopic", Topic: "a"},
+		{Kind: "fetchGroup", Group: "x/offsets/a"},
+		{Kind: "listGroups"}}}
+	results := map[string]string{}
+	defer func() {
+		for id, what := range results {
+			st.KnownResult(id, what != "", what)
+		}
+	}()
 	for id, sc := range wits {
 		st.Eval()
 		div, env := c17Run(cli, sc)
@@ -743,7 +836,12 @@ func TestVF_C17_Witness(t *testing.T) {
 			fmt.Println("VF-INCONCLUSIVE: embedded etcd misbehaved:", env)
 			t.Fatalf("environment: %s", env)
 		}
-		st.KnownResult(id, div != "", div)
+		base := strings.SplitN(id, "#", 2)[0]
+		if div != "" {
+			results[base] = div + " [" + id + "]"
+		} else if _, ok := results[base]; !ok {
+			results[base] = ""
+		}
 		t.Logf("witness %s: %s", id, div)
 		st.NonTrivial("witness", id)
 		st.Sample(map[string]any{"witness": id, "script": sc, "divergence": div})
